@@ -258,6 +258,7 @@ func baseSteps(tier string) []Step {
 		st("[::2]", "(union (s _ _ 2))", "slice", true),
 		st("[1::-2]", "(union (s 1 _ -2))", "slice", true),
 		{Text: "[7002:7003]", Ast: "(union (s (h lo) (h hi) _))", Kind: "slice", Multi: true, Holes: "7002=lo;7003=hi", Depth: 1},
+		{Text: "[7005:7006:7007]", Ast: "(union (s (h s3) (h e3) (h t3)))", Kind: "slice", Multi: true, Holes: "7005=s3;7006=e3;7007=t3", Depth: 1},
 		{Text: "..a", Ast: "(desc (name a))", Kind: "desc", Multi: true, Depth: 2},
 		{Text: "..*", Ast: "(desc (wild))", Kind: "desc", Multi: true, Depth: 2},
 		{Text: "..['a','b']", Ast: "(desc (multi (n a) (n b)))", Kind: "desc", Multi: true, Depth: 2},
@@ -443,6 +444,21 @@ func funcPaths(tier string, rng *rand.Rand) []Path {
 func filterPaths(tier string, rng *rand.Rand) []Path {
 	var out []Path
 	for _, e := range filterExprs(tier, rng) {
+		out = append(out, mkPath(filterStep(e)))
+	}
+	return out
+}
+
+// literalPaths: comparisons between two literals (the literal is the left operand the comparators write into).
+func literalPaths() []Path {
+	var out []Path
+	for _, e := range []Expr{
+		{Text: "1 == 1", Ast: "(cmp == (num 1) (num 1))"}, {Text: "1 == 2", Ast: "(cmp == (num 1) (num 2))"}, {Text: "1 != 2", Ast: "(cmp != (num 1) (num 2))"},
+		{Text: "1 < 2", Ast: "(cmp < (num 1) (num 2))"}, {Text: "2 <= 1", Ast: "(cmp <= (num 2) (num 1))"}, {Text: "2 > 7.5e1", Ast: "(cmp > (num 2) (numh lit))", Holes: "7.5e1=lit:f"},
+		{Text: "'x' != 'y'", Ast: "(cmp != (str x) (str y))"}, {Text: "'x' == 'x'", Ast: "(cmp == (str x) (str x))"}, {Text: "null == null", Ast: "(cmp == (null) (null))"},
+		{Text: "true == false", Ast: "(cmp == (bool true) (bool false))"}, {Text: "1 == 2 || @.a", Ast: "(or (cmp == (num 1) (num 2)) (exists (cur (name a))))"},
+		{Text: "@.a && 'x' == 'y'", Ast: "(and (exists (cur (name a))) (cmp == (str x) (str y)))"},
+	} {
 		out = append(out, mkPath(filterStep(e)))
 	}
 	return out
